@@ -109,6 +109,14 @@ reg("C11", "exploration",
     "value. Sampling; mixed-kind chains and modify/listenable options are not covered.",
     BASE_NOTE, "DESIGN.md 3/C11")
 
+reg("C12", "exploration",
+    "Hypothesis dependency-mutation histories (crossing pickle/clone/deepcopy) vs independent recomputation of every property, getter-call counting and notification oracle",
+    "An object with 9 observed properties (cached/uncached; scalar, Instance, list/dict/set items with duplicates, nested and "
+    "multi-dependency) is driven through generated mutations, reads and copy operations; after every step every property "
+    "is compared with a recomputation, cached getters may run at most once between changes, and value-altering changes must "
+    "be announced to observe, on_trait_change and static handlers with the right final value. Sampling.",
+    BASE_NOTE, "DESIGN.md 3/C12")
+
 
 def main():
     props = [json.loads(l) for l in open(os.path.join(ROOT, "properties.jsonl"))]
